@@ -34,12 +34,13 @@ SQLM = ["MExec", "MPrepare", "MQueryRow", "MQueryRowPartial", "MQueryRows", "MQu
 WK = ["WGrpcClient", "WGrpcServerUnary", "WGrpcServerStream", "WRedisCmd", "WRedisIgnoredCmd", "WRedisPipeline",
       "WRedisReal", "WSqlExec", "WSqlPredicate", "(WSqlM MExec false)"]
 WK += ["(WSqlM %s true)" % m for m in SQLM[1:]] + ["(WSqlM %s false)" % m for m in SQLM[1:]]   # 10..15, 16..21
+WK.append("WGrpcServerChain")       # 22
 SQL_KINDS = list(range(7, 22))
 SQL_QUERY_KINDS = (11, 12, 13, 14, 17, 18, 19, 20)
 DERR = ["DNil", None, "DCtxCanceled", "DCtxDeadline", "DBreakerUnavailable", "DRedisNil", "DWrappedRedisNil",
         "DSqlNoRows", "DSqlTxDone", "DSqlAcceptable", "DOther", "DPanic", "DWrappedCanceled", None, "DSqlConnErr",
         "DSqlScanFail", "DSqlScanDeadline", "DWrappedDeadline", "DWrappedBreakerUnavailable", "DWrappedSqlNoRows",
-        "DWrappedSqlTxDone"]
+        "DWrappedSqlTxDone", "DStallTimeout", "DStallCancel"]
 SQL_CUSTOM = (10, 11, 12, 21, 22, 31, 32)    # 10*i + n: accepted iff 1 <= i <= n
 
 
@@ -54,7 +55,7 @@ def sql_classes(k):
 # wrapper executors: case["w"] -> (go package, overlay test file, downstream classes it understands)
 WPKG = {
     "grpcc": ("zrpc/internal/clientinterceptors", "grpc_client_verif_test.go", [0], [0, 1, 2, 3, 4, 10, 11, 12, 17, 18]),
-    "grpcs": ("zrpc/internal/serverinterceptors", "grpc_server_verif_test.go", [1, 2], [0, 1, 2, 3, 4, 10, 11, 12, 17, 18]),
+    "grpcs": ("zrpc/internal/serverinterceptors", "grpc_server_verif_test.go", [1, 2, 22, 22], [0, 1, 2, 3, 4, 10, 11, 12, 17, 18]),
     "redis": ("core/stores/redis", "redis_verif_test.go", [3, 4, 5, 6], [0, 2, 3, 4, 5, 6, 10, 11, 12, 17, 18]),
     "sql": ("core/stores/sqlx", "sqlx_verif_test.go", SQL_KINDS, [0, 2, 3, 4, 7, 8, 9, 10, 12]),
     "rest": ("rest/handler", "rest_verif_test.go", [], []),
@@ -597,13 +598,42 @@ class C01(Property):
         cs.append({"base": B + 2, "insts": [1, 1], "mops": ops})
         return cs
 
+    REST_OK = (200, 201, 204, 301, 400, 404, 429, 499, 103)
+    REST_BAD = (500, 502, 503, 504, 599)
+
+    def _rest_script(self, rng, bad, gap, dur, m):
+        """[3, chain, gap, dur, m, end, op...]: a handler script through the engine's chain; `bad` steers
+        towards an outcome the breaker has to record as a failure"""
+        chain = rng.choice([0, 1, 2, 2, 3, 3, 3])
+        ops = []
+        for _ in range(rng.choice([0, 1, 1, 2, 3, 4])):
+            r = rng.random()
+            if r < 0.3:
+                ops.append(1)
+            elif r < 0.55:
+                ops.append(2)
+            else:
+                ops.append(rng.choice(self.REST_BAD if (bad and rng.random() < 0.6) else self.REST_OK))
+        if chain >= 2:
+            end = rng.choice([2, 2, 2, 1, 0]) if bad else rng.choice([0, 0, 0, 3, 1])
+        else:
+            end = rng.choice([0, 0, 1])
+            if bad and not any(o >= 500 for o in ops):
+                ops.append(rng.choice(self.REST_BAD))     # without TimeoutHandler the last status decides
+        return [3, chain, gap, dur, m, end] + ops
+
     def _wrapper_case(self, rng):
         w = rng.choice(["grpcc", "grpcs", "redis", "sql", "rest", "rest"])
         if w == "rest":
             reqs = []
             tempo = rng.choice(["dense", "dense", "medium"])
             p5 = rng.choice([0.3, 0.6, 0.9, 1.0])
+            pscript = rng.choice([0.0, 0.3, 0.7, 1.0])
             for _ in range(rng.randint(5, 120)):
+                if rng.random() < pscript:
+                    dur = 0 if rng.random() < 0.8 else rng.randrange(0, IV)
+                    reqs.append(self._rest_script(rng, rng.random() < p5, self._gap(rng, tempo), dur, self._draw(rng)))
+                    continue
                 r = rng.random()
                 code = rng.choice([500, 500, 502, 503, 504, 599]) if rng.random() < p5 else rng.choice([0, 200, 201, 301, 400, 404, 429, 499])
                 kind = 0 if r < 0.9 else (1 if r < 0.95 else 2)
@@ -623,6 +653,8 @@ class C01(Property):
             cls = rng.choice(classes)
             if k == 6:
                 cls = rng.choice([0, 5, 10])
+            if k == 22 and rng.random() < 0.3:
+                cls = rng.choice([21, 22])      # still running when the timeout fires / the client cancels
             calls.append([k, rng.choice([0, 0, 1]), rng.choice([0, 0, 0, 1]), cls, rng.randint(1, 16) if cls == 1 else 0])
         return {"w": w, "wcalls": calls}
 
@@ -631,8 +663,8 @@ class C01(Property):
         for w in ("grpcc", "grpcs", "redis"):
             _, _, kinds, classes = WPKG[w]
             calls = []
-            for k in kinds:
-                cl = [0, 5, 10] if k == 6 else classes
+            for k in sorted(set(kinds)):
+                cl = [0, 5, 10] if k == 6 else classes + ([21, 22] if k == 22 else [])
                 for cls in cl:
                     for code in (range(1, 17) if cls == 1 else [0]):
                         for rej in (0, 1):
@@ -659,6 +691,24 @@ class C01(Property):
         cs.append({"w": "rest", "base": B, "reqs": reqs})
         reqs = [[0, 503, 0, 0, 0] for _ in range(30)] + [[0, 200, IV, 3 * MS, big] for _ in range(10)] + [[0, 200, 0, 0, 0] for _ in range(10)]
         cs.append({"w": "rest", "base": B, "reqs": reqs})
+        # the engine's chain Breaker(Timeout(Recover(handler))): a streaming handler writes, flushes (implicit 200 on
+        # the wire) and stalls past the route's timeout - every request IS a 503 for the breaker: total failure, so
+        # the requests drawing 0 afterwards must be shed; the same with a 2xx status set before the flush
+        for ops in ([1, 2], [200, 1, 2, 1], [2]):
+            reqs = [[3, 3, MS, 0, big, 2] + ops for _ in range(14)] + [[3, 3, MS, 0, 0, 2] + ops for _ in range(6)]
+            cs.append({"w": "rest", "base": B + 5, "reqs": reqs})
+        # an informational 1xx header, then the final 5xx, no TimeoutHandler: the last status is the outcome
+        reqs = [[3, 0, MS, 0, big, 0, 103, 500] for _ in range(14)] + [[3, 1, MS, 0, 0, 0, 103, 503] for _ in range(6)]
+        cs.append({"w": "rest", "base": B + 6, "reqs": reqs})
+        # every chain x end x a few scripts on a breaker that admits (3 s apart)
+        reqs = []
+        for chain in range(4):
+            for end in ((0, 1, 2, 3) if chain >= 2 else (0, 1)):
+                for ops in ([], [1], [2], [404], [500], [1, 2], [500, 1, 2], [2, 500], [200, 503], [103, 500], [500, 200],
+                            [1, 500], [204, 2, 1]):
+                    reqs.append([3, chain, 3 * SEC, MS, 0, end] + ops)
+        cs.append({"w": "rest", "base": B + 7, "reqs": reqs[0::2]})
+        cs.append({"w": "rest", "base": B + 8, "reqs": reqs[1::2]})
         return cs
 
     def gen(self, rng, n, tier):
@@ -777,6 +827,11 @@ class C01(Property):
                 6: "(SBool %s)" % cbool(code == 1)}.get(kind, "(SStatus (-1))")
 
     def _hreq(self, q):
+        if q[0] == 3:
+            ch = ["(ChPlain false)", "(ChPlain true)", "(ChTimeout false)", "(ChTimeout true)"][q[1]]
+            ops = clist(["HWrite" if o == 1 else "HFlush" if o == 2 else "HWriteHeader %d" % o for o in q[6:]])
+            end = ["HReturn", "HPanicEnd", "HStallTimeout", "HStallCancel"][q[5]]
+            return "mkHReq (HScript %s %s %s) %s %s (mkU %d)" % (ch, ops, end, cz(q[2]), cz(q[3]), q[4])
         out = {0: "(HCode %s)" % cz(q[1] or 200), 1: "(HPanic None)", 2: "(HPanic (Some %s))" % cz(q[1])}[q[0]]
         return "mkHReq %s %s %s (mkU %d)" % (out, cz(q[2]), cz(q[3]), q[4])
 
@@ -868,7 +923,8 @@ class C01(Property):
             rej = any(r[0] == 1 and r[1] in (1, 5) and r[2] == 0 and n["c"][2] < 4 for n, r in pr)
             return len(used) >= 2 and rej
         if case.get("w") == "rest":
-            return any(o[0] == 0 for o in obs["obs"]) and any(q[1] >= 500 for q in case["reqs"])
+            return any(o[0] == 0 for o in obs["obs"]) and any((q[0] != 3 and q[1] >= 500) or (q[0] == 3 and (q[5] == 2 or any(x >= 500 for x in q[6:])))
+                                                             for q in case["reqs"])
         if case.get("w"):
             return any(o[3] == 1 for o in obs["obs"]) and any(o[2] == 1 for o in obs["obs"]) and any(o[1] == 1 for o in obs["obs"])
         if case.get("conc"):
@@ -914,6 +970,12 @@ class C01(Property):
                 fs.append("wrap_rest_503")
             if any(o[1] == 1 for o in obs["obs"]):
                 fs.append("wrap_rest_panic")
+            for q, o in zip(case["reqs"], obs["obs"]):
+                if q[0] == 3 and o[0] == 1:
+                    fs.append("wrap_rest_chain_" + ["handler", "recover", "timeout", "timeout_recover"][q[1]])
+                    fs.append("wrap_rest_end_" + ["return", "panic", "timed_out", "client_cancel"][q[5]])
+                    if q[5] == 2 and q[1] >= 2 and 2 in q[6:]:
+                        fs.append("wrap_rest_timed_out_after_flush")
             return fs
         if case.get("w"):
             fs = ["wrap_" + case["w"]]
